@@ -21,9 +21,11 @@ OWNER = {
     "Crash": {"C02"}, "Watchdog": {"C02"},
 }
 SNAPDIAG_OWNER = {"1": {"C02", "C05", "C06", "C18"}, "2": {"C02"}, "3": {"C06"}, "4": {"C02", "C04"}, "5": {"C18"}}
-PROP_OF_MONITOR = {"C01.order": "C01", "C01.exactly_once": "C01", "C01.not_before": "C01", "C03.gate": "C03", "C03.once": "C03", "C04.nil": "C04",
-                   "C04": "C04", "C04.cause": "C04", "C05.shape": "C05", "C05.no_dup": "C05", "C06": "C06",
+PROP_OF_MONITOR = {"C01.order": "C01", "C01.exactly_once": "C01", "C01.not_before": "C01", "C03.gate": "C03", "C03.pending": "C03", "C01.cancel_after": "C01", "C03.once": "C03", "C04.nil": "C04",
+                   "C04": "C04", "C04.cause": "C04", "C05.shape": "C05", "C05.no_dup": "C05", "C06": "C06", "C06.final": "C06",
                    "C18.final": "C18", "C18.bounded": "C18"}
+# monitors whose failures have one canonical key (a specific, documented defect shape)
+CANON_KEY = {"C06.final": "monitor-overwrites-final-state"}
 ALL = {"C01", "C02", "C03", "C04", "C05", "C06", "C18"}
 
 
@@ -136,7 +138,7 @@ def run_property(run, pid, families, prop_file, proof_files, n_quick=210, n_thor
             mon = l.split()[1]
             if PROP_OF_MONITOR.get(mon) != pid:
                 continue
-            key = "%s:%s:%s" % (mon, fam, seed)
+            key = CANON_KEY.get(mon, "%s:%s:%s" % (mon, fam, seed))
             run.violation(key, payload, "%s fails on the implementation's observed trace (scenario %s/%s)" % (mon, fam, seed))
         else:
             owners, kind = owners_of(l)
